@@ -294,6 +294,18 @@ def mc_module(fam, name, extends, cfg, alphabet):
     return '\n'.join(lines), '\n'.join(cfgl) + '\n'
 
 
+def _kind(a):
+    if 'act' in a:
+        k = a['act']
+        for f in ('kind', 'class'):
+            if f in a:
+                k += ':' + str(a[f])
+        if a['act'] in ('Inject', 'JunkProbe'):
+            k += ':' + a['msg'].get('class', a['msg']['method'])
+        return k
+    return '%s:%s' % (a.get('th'), a.get('c'))
+
+
 class _Factory:
     def __init__(self, fam_name, cfg):
         self.fam_name = fam_name
@@ -392,6 +404,27 @@ def check_config(v, name, invariants, dev, variants=None):
             graphs[var] = (g, gf, ex.submit(_tlc_g2, fam, wd, cfg, alphabet, gf, 4,
                                             'MCG_' + var,
                                             not g.get('partial')))
+            # vacuity guard: every kind of action of the alphabet was taken
+            # somewhere, and how often it had an observable effect
+            kinds = {}
+            for a in alphabet:
+                kinds.setdefault(_kind(a), [0, 0])
+            for e in g['edges']:
+                k = kinds.setdefault(_kind(e['a']), [0, 0])
+                k[0] += 1
+                o = e['out']
+                if e['src'] != e['dst'] or any(
+                        o.get(f) for f in ('pk', 'hc', 'cbs', 'set')) or \
+                        o.get('res') not in (None, ['ok'], []):
+                    k[1] += 1
+            v.cov.setdefault('action_coverage', {})[
+                '%s/%s' % (name, var)] = {k: x for k, x in kinds.items()}
+            dead = sorted(k for k, x in kinds.items() if x[0] == 0)
+            if dead and not g.get('partial'):
+                v.cov.setdefault('never_enabled', {})[
+                    '%s/%s' % (name, var)] = dead
+                v.log('  note: in %s/%s no reachable state enables %s'
+                      % (name, var, dead))
             v.log('  [%s/%s] implementation graph: %d states, %d edges '
                   '(depth %d, %.1fs)' % (name, var, len(g['nodes']),
                                          len(g['edges']), g['depth'],
